@@ -12,7 +12,7 @@ by old index (an `FnvHashMap`; only `keys()` collected into an `IntSet` — asce
 and `is_empty` are used, so the order of the hash map never matters).
 Outcome: `ok bytes`, `dropped` (the subsetter returned `Err` and the serializer is not in error:
 `lib.rs subset` omits the table), `fail` (serializer error: `subset_font` returns `Err`), `trap`
-(panic: u16 arithmetic overflow with overflow checks on).
+(panic; none left after the overflow fix).
 -/
 import FontVerif.Model.SubsetColrSer
 namespace FontVerif.SubsetCpal
@@ -68,15 +68,13 @@ def recordsGo (records : List Nat) (retained : List Nat) :
     if (map.lookup first).isSome then recordsGo records retained rest map newIdx out
     else do
       let recs ← retained.mapM fun e =>
-        -- `first_idx + entry_idx` in u16
-        if first + e ≥ 65536 then throw Err.trap
-        else match slice records (4 * (first + e)) 4 with
-          | none => throw Err.fail                      -- `self.get(record_idx)` = None: set_err(OTHER)
-          | some r => pure r
-      -- `new_idx += num_palette_entries` in u16
-      if newIdx + retained.length % 65536 ≥ 65536 then throw Err.trap
-      else recordsGo records retained rest (map ++ [(first, newIdx)]) (newIdx + retained.length % 65536)
-            (out ++ recs.flatten)
+        match slice records (4 * (first + e)) 4 with
+        | none => throw Err.fail                      -- `self.get(record_idx)` = None: set_err(OTHER)
+        | some r => pure r
+      -- `new_idx` is a usize, stored `as u16` (fix 93c035d: an index beyond u16 implies the overflow
+      -- reported by the caller)
+      recordsGo records retained rest (map ++ [(first, newIdx % 65536)]) (newIdx + retained.length % 65536)
+        (out ++ recs.flatten)
 
 /-- `Offset32::serialize_subset` of an object without links -/
 def packLeaf (packed : List Obj) (bytes : List Nat) (pos : Nat) (links : List Link) :
@@ -98,9 +96,9 @@ def subsetCpal (b : List Nat) (palettes : List (Nat × Nat)) : R (List Nat) := d
   let some records := slice b h.recordsOffset (4 * h.numColorRecords) | throw Err.fail
   let (map, recBytes) ← recordsGo records retained h.indices [] 0 []
   let (packed, links) ← packLeaf [] recBytes 8 []
-  -- `(first_record_idx_map.len() as u16) * num_colors`
-  if (map.length % 65536) * numColors ≥ 65536 then throw Err.trap
-  let numColorRecords := (map.length % 65536) * numColors
+  -- `u16::try_from(first_record_idx_map.len())…checked_mul(num_colors)`: set_err(INT_OVERFLOW)
+  if map.length * numColors ≥ 65536 then throw Err.fail
+  let numColorRecords := map.length * numColors
   let newIndices := h.indices.map fun f => (map.lookup f).getD 0
   let v0 := beBytes 2 h.version ++ beBytes 2 numColors ++ beBytes 2 h.numPalettes ++
     beBytes 2 numColorRecords ++ [0, 0, 0, 0] ++ newIndices.flatMap (beBytes 2)
